@@ -138,11 +138,32 @@ package gnosis
 //@   ensures (ret1 == nil && !rowExists(eon)) ==> (evcount("setTxPointer") == old(evcount("setTxPointer")) + 1 && evarg("setTxPointer", 1, old(evcount("setTxPointer"))) == 0 && evarg("setTxPointer", 2, old(evcount("setTxPointer"))) == 0 && evarg("setTxPointer", 3, old(evcount("setTxPointer"))))
 //@   opt frame = off
 //@
+//@ // C19: a slot's trigger starts at the tx pointer of the keyper set in charge of the next block (keyper config index
+//@ // of the eon active at that block): the pointer is read for THAT index (not, e.g., for the eon number), the identities
+//@ // are requested from it, and the trigger row the keys handlers read back carries that index and exactly that pointer
+//@ pred ptrOf(eon, maxAge) := ite(!rowExists(eon), 0, ite(rowAgeValid(eon) && rowAge(eon) <= maxAge, rowValue(eon), queueLen(eon)))
+//@ func (*Keyper).triggerDecryption
+//@   requires ctx != nil && kpr != nil && kpr.dbpool != nil && keyperSet != nil && kpr.config != nil && kpr.config.Gnosis != nil && kpr.config.Gnosis.MinGasPerTransaction >= 1 && kpr.config.Gnosis.EncryptedGasLimit <= 9223372036854775807
+//@   ensures ret0 == nil ==> (keyperConfigIndex == eonStruct.KeyperConfigIndex && txPointer == ptrOf(keyperConfigIndex, int64(kpr.config.Gnosis.MaxTxPointerAge)))
+//@   ensures ret0 == nil ==> (evcount("setTrigger") == old(evcount("setTrigger")) + 1 && evarg("setTrigger", 0, old(evcount("setTrigger"))) == keyperConfigIndex && evarg("setTrigger", 1, old(evcount("setTrigger"))) == int64(slot) && evarg("setTrigger", 2, old(evcount("setTrigger"))) == txPointer)
+//@   opt frame = off
+//@
 //@ // After a keys message releasing k identities at pointer p is processed, the pointer is p+k-1 with age 0
 //@ func (*MessagingMiddleware).advanceTxPointer
 //@   requires i != nil && msg != nil && typeis(msg.Extra, "*p2pmsg.DecryptionKeys_Gnosis") && wfExtraKeys(msg) && gnosisOf(msg) != nil && gnosisOf(msg).TxPointer <= 2147483647 && len(msg.Keys) >= 1 && len(msg.Keys) <= MAXMSG
 //@   ensures ret0 == nil ==> (evcount("setTxPointer") == old(evcount("setTxPointer")) + 1 && evarg("setTxPointer", 1, old(evcount("setTxPointer"))) == gnosisOf(msg).TxPointer + len(msg.Keys) - 1 && evarg("setTxPointer", 2, old(evcount("setTxPointer"))) == 0 && evarg("setTxPointer", 3, old(evcount("setTxPointer"))))
+//@   // for callers: the write it performs on success (a write that fails is not counted on their side)
+//@   event setTxPointer(int64(msg.Eon), gnosisOf(msg).TxPointer + len(msg.Keys) - 1, 0, true) when ret0 == nil
 //@   opt frame = off
+//@ // C19: the middleware lets a keys message out only after advancing the tx pointer for it, exactly once (whether
+//@ // the message already carries its Gnosis extra or is completed here from the stored trigger and signatures)
+//@ pred advancable(msg) := msg != nil && typeis(msg.Extra, "*p2pmsg.DecryptionKeys_Gnosis") && wfExtraKeys(msg) && gnosisOf(msg) != nil && gnosisOf(msg).TxPointer <= 2147483647 && len(msg.Keys) >= 1 && len(msg.Keys) <= MAXMSG
+//@ func (*MessagingMiddleware).interceptDecryptionKeys
+//@   requires ctx != nil && i != nil && i.dbpool != nil && i.config != nil && i.config.Gnosis != nil && originalMsg != nil && len(originalMsg.Keys) >= 1 && len(originalMsg.Keys) <= MAXMSG && (originalMsg.Extra != nil ==> advancable(originalMsg))
+//@   ensures (ret1 == nil && ret0 != nil) ==> evcount("setTxPointer") == old(evcount("setTxPointer")) + 1
+//@   ensures ret1 != nil ==> ret0 == nil
+//@   opt frame = off
+//@
 //@ // the comparison handed to sort.Slice orders the elements of the slice being sorted (the copy), byte-wise
 //@ func sortIdentityPreimages$1
 //@   requires 0 <= i && i < len(sorted) && 0 <= j && j < len(sorted)
